@@ -180,7 +180,7 @@ static int process_op(
   {
     int address = operand->value;
 
-    if (address > 8191)
+    if (address < 0 || address > 8191)
     {
       print_error_range(asm_context, "Address", 0, 8191);
       return -1;
